@@ -897,6 +897,30 @@ impl Header {
 //@|     vp_any <==> exists|j: int| 0 <= j < tip_successors@.len() && (#[trigger] tip_successors@[j]).block_hash == current_block_hash,
 //@end
 
+// ValidationContext::new, second half (validation.rs:37-43): the header chain handed to the validator is the branch from the anchor
+// to the parent, each header with the hash cached for its block. R16: `xs.iter().map(|b| e).collect()` => a loop pushing `e`
+//@slice file=canister/src/validation.rs in="impl<'a> ValidationContext<'a>" item="fn new" from="let chain = chain" props=C10,C11
+//@ rewrite R16 "let chain = chain\s*\.into_chain\(\)\s*\.iter\(\)\s*\.map\(\|block\| (\(.*?\))\)\s*\.collect\(\);" => "let vp_blocks = chain.into_chain();\n        let mut vp_out: Vec<(&'a Header, BlockHash)> = Vec::new();\n        for block in vp_blocks.iter() {\n            vp_out.push(\1);\n        }\n        let chain = vp_out;"
+//@ head
+//@| // R8 slice: the statement that turns the block chain into the (header, hash) chain of the context
+//@| fn validation_context_new_chain<'a>(chain: BlockChain<'a, CachedBlock>) -> (r: Vec<(&'a Header, BlockHash)>)
+//@|     ensures
+//@|         r@.len() == chain@.len(),
+//@|         forall|i: int| 0 <= i < r@.len() ==> *(#[trigger] r@[i]).0 == chain@[i].header && r@[i].1 == chain@[i].block_hash,
+//@| {
+//@|     let ghost vp_chain_view = chain@;
+//@ tail
+//@|     chain
+//@| }
+//@ loop 1 binder=itb
+//@| invariant
+//@|     deref_seq(vp_blocks@) =~= vp_chain_view,
+//@|     vp_out@.len() == itb.index@,
+//@|     forall|i: int| 0 <= i < itb.index@ ==> *(#[trigger] vp_out@[i]).0 == vp_chain_view[i].header && vp_out@[i].1 == vp_chain_view[i].block_hash,
+//@ before "vp_out.push("
+//@| proof { assert(**block == vp_chain_view[itb.index@ as int]); }
+//@end
+
 struct ValidationContext<'a> { state: &'a State, header: Header }
 impl<'a> ValidationContext<'a> {
     // [trusted:assumed-contract] ValidationContext::new (validation.rs:22) as seen by insert_block: its admission checks are
